@@ -12,8 +12,9 @@
  *                        duplicated, nothing consumed
  *  C15.in.lazy           no source/codec call when enough is buffered
  *  C15.in.fail           ret < 0 <=> source or codec error
- *  C15.in.eof_needs_end  ret > 0 (end of stream reported to the consumer)
- *                        ==> the codec is not in the middle of a compressed
+ *  C15.in.no_spurious_eof  ret > 0 (end of stream reported to the consumer)
+ *                        ==> the source was asked and reported its end
+ *  C15.in.eof_needs_end  ... and then the codec is not in the middle of a compressed
  *                        stream: it returned END after the last input it
  *                        consumed (or never consumed any). "Truncated input
  *                        is never a shorter archive."
@@ -89,13 +90,21 @@ void harness(void)
 	g_opos = g_keep;
 	g_owat = g_ow < g_keep ? g_off0 + (size_t)g_ow : C15_NOWHERE;
 	g_moves = 0;
+#ifdef C15_HAVE_IN_STREAM
+	/* representation invariant of the fixed wrapper: its belief about the
+	 * decoder being in mid-stream is the truth */
+	g_x.in_stream = g_open;
+#endif
 	wantc = want > BUFSZ ? BUFSZ : want;
-	enough0 = g_used0 != 0 && g_keep >= wantc;
+	enough0 = g_keep > 0 && g_keep >= wantc;
 	VERIF_COVER(g_off0 > 0 && g_keep > 4 && want > g_keep);
 
 	ret = xfrm_get_buffered_data((sqfs_istream_t *)&g_x, &out, &size, want);
 
-	VERIF_ASSERT((ret < 0) == (g_in_err || g_codec_err), "C15.in.fail");
+	if (g_in_err || g_codec_err)
+		VERIF_ASSERT(ret < 0, "C15.in.fail");
+	else if (ret < 0)
+		VERIF_ASSERT(g_eofseen && g_open, "C15.in.fail");
 	if (enough0)
 		VERIF_ASSERT(g_ncalls == 0 && g_gets == 0 && g_moves == 0 &&
 			     g_x.buffer_offset == g_off0 &&
@@ -113,8 +122,11 @@ void harness(void)
 			     "C15.in.deliver_once");
 		VERIF_ASSERT((ret > 0) == (size == 0), "C15.in.view");
 	}
-	if (ret > 0)
-		VERIF_ASSERT(!g_open, "C15.in.eof_needs_end");
+	if (ret > 0) {
+		VERIF_ASSERT(g_eofseen, "C15.in.no_spurious_eof");
+		if (g_eofseen)
+			VERIF_ASSERT(!g_open, "C15.in.eof_needs_end");
+	}
 
 	VERIF_COVER(ret == 0 && !enough0 && size == BUFSZ && g_codec_calls >= 3);
 	VERIF_COVER(ret == 0 && enough0 && want > 0);
